@@ -38,6 +38,9 @@ checks = {
  "C11": dict(level="exploration", ref="DESIGN.md 3 C11",
    text="Real systems with real remoting code talk over an in-memory network whose read chunking (everything available / one byte / uniform / frame-aligned / mixed) and latency are drawn per run, i.e. the simulator - not kernel timing - decides how the TCP byte stream is split into reads; bursts, sizes, directions, Tell/Ask/user-codec flows and idle periods are drawn; a sequence-and-checksum oracle per flow.",
    technique="deterministic simulation: in-memory transport with seeded read chunking and latency under the seeded scheduler, sequence oracle"),
+ "C14": dict(level="fault_enumeration", ref="DESIGN.md 3 C14",
+   text="The cut offset of a fixed multi-frame stream is enumerated byte by byte from the run ordinal (handshake, length prefixes, bodies, frame boundaries) together with EOF/RST, immediate/late write error and retry settings, each visit under a fresh seeded schedule; refused dials, peer restarts, resets, bad frames from a fake peer and Tell to an unreachable peer are sampled; subsequence / dead-letter / bounded-recovery / zero-simulated-time-Tell oracles.",
+   technique="deterministic simulation: in-memory transport with enumerated cut offsets and sampled connection faults, subsequence and bounded-liveness oracles"),
  "C19": dict(level="exploration", ref="DESIGN.md 3 C19",
    text="Concurrent Subscribe/Unsubscribe/UnsubscribeAll/Publish histories with subscriber kills and restarts, stamped with the simulator's global event sequence number and checked for linearizability against a set model with porcupine; plus duplicate, order, post-termination and stale-table-entry oracles.",
    technique="deterministic simulation: seeded scheduler, recorded history checked with porcupine against a sequential model"),
